@@ -28,24 +28,38 @@ def impl(case):
                                              variables={"x": "output(0.0)", "k": 1.0})
             ops[("t", c)] = OperatorTemplate(opname[("t", c)], equations=["x' = " + " + ".join(["r_in"] * (c + 1))],
                                              variables={"x": "output(0.0)", "r_in": "input(0.0)"})
+        # a "tap": a second operator on the source node that reads x through the operator graph (w' = x)
+        tap_op = OperatorTemplate("tp", equations=["w' = x"], variables={"w": "variable(0.0)", "x": "input(0.0)"})
+        tapped = {s_: w0 for s_, w0 in case.get("taps", [])}
         nodes, outs = {}, {}
+        # a relay: an ALGEBRAIC output z = g * r_in (kind 'r')
+        relay_op = OperatorTemplate("ra", equations=["z = g * r_in"], variables={"z": "output(0.0)", "r_in": "input(0.0)", "g": 1.0})
+        ops[("r", 0)] = relay_op; opname[("r", 0)] = "ra"
         for i, n in enumerate(case["nodes"]):
             key = (n["kind"], n["cls"])
             vals = {"x": float(Fr(n["x0"]))}
             if n["kind"] == "s":
                 vals["k"] = float(Fr(n["k"]))
-            nodes[f"n{i}"] = NodeTemplate(f"N{i}", operators={ops[key]: vals})
-            outs[f"n{i}"] = f"n{i}/{opname[key]}/x"
+            if n["kind"] == "r":
+                vals = {"g": float(Fr(n["g"]))}
+            opd = {ops[key]: vals}
+            if i in tapped:
+                opd[tap_op] = {"w": float(Fr(tapped[i]))}
+            nodes[f"n{i}"] = NodeTemplate(f"N{i}", operators=opd)
+            if n["kind"] != "r":          # (an algebraic variable cannot be requested as an output of run())
+                outs[f"n{i}"] = f"n{i}/{opname[key]}/x"
+        for j, (s_, w0) in enumerate(case.get("taps", [])):
+            outs[f"tap{j}"] = f"n{s_}/tp/w"
         edges = []
         for s, t, w, ds in case["edges"]:
             d = {"weight": float(Fr(w))}
             if ds == "none":
                 d["delay"] = None
             elif ds != "nokey":
-                d["delay"] = float(Fr(ds))
+                d["delay"] = int(Fr(ds)) if case.get("int_delays") and Fr(ds).denominator == 1 else float(Fr(ds))
             sk = opname[(case["nodes"][s]["kind"], case["nodes"][s]["cls"])]
             tk = opname[(case["nodes"][t]["kind"], case["nodes"][t]["cls"])]
-            edges.append((f"n{s}/{sk}/x", f"n{t}/{tk}/r_in", None, d))
+            edges.append((f"n{s}/{sk}/{'z' if case['nodes'][s]['kind'] == 'r' else 'x'}", f"n{t}/{tk}/r_in", None, d))
         dt = float(Fr(case["dt"]))
         c = CircuitTemplate("c", nodes=nodes, edges=edges)
         try:
@@ -54,7 +68,7 @@ def impl(case):
                       in_place=False)
         except (IndexError, ValueError, KeyError, TypeError, AttributeError, NameError) as e:
             return {"raised": type(e).__name__, "msg": str(e)[:160]}
-        cols = [f"n{i}" for i in range(len(case["nodes"]))]
+        cols = [f"n{i}" for i, n in enumerate(case["nodes"]) if n["kind"] != "r"] + [f"tap{j}" for j in range(len(case.get("taps", [])))]
         rows = []
         for j in range(len(r.index)):
             rows.append([frac(np.asarray(r[cname].values[j]).reshape(-1)[0]) for cname in cols])
@@ -78,13 +92,19 @@ def impl_conn(case):
         sop = OperatorTemplate("sa", equations=["x' = k"], variables={"x": "output(0.0)", "k": 1.0})
         top = OperatorTemplate("ta", equations=["x' = r_in + m"], variables={"x": "output(0.0)", "r_in": "input(0.0)", "m": 0.0})
         tnode = NodeTemplate("TN", operators=[top])
-        pops = {"p": PopulationTemplate("p", NodeTemplate("SN", operators=[sop]), ns,
-                                        params={"sa/k": [float(Fr(n["k"])) for n in nodes[:ns]], "sa/x": [float(Fr(n["x0"])) for n in nodes[:ns]]}),
+        taps = case.get("taps", [])
+        sops, sparams = [sop], {"sa/k": [float(Fr(n["k"])) for n in nodes[:ns]], "sa/x": [float(Fr(n["x0"])) for n in nodes[:ns]]}
+        if taps:          # a second operator on the source population's node that reads x through the operator graph
+            sops.append(OperatorTemplate("tp", equations=["w' = x + m"], variables={"w": "variable(0.0)", "x": "input(0.0)", "m": 0.0}))
+            sparams["tp/w"] = [float(Fr(w0)) for _, w0 in taps]
+        pops = {"p": PopulationTemplate("p", NodeTemplate("SN", operators=sops), ns, params=sparams),
                 "q": PopulationTemplate("q", tnode, nq, params={"ta/x": [float(Fr(n["x0"])) for n in nodes[ns:ns + nq]]})}
         outs = {"p": "p/sa/x", "q": "q/ta/x"}
         if nr:
             pops["r"] = PopulationTemplate("r", tnode, nr, params={"ta/x": [float(Fr(n["x0"])) for n in nodes[ns + nq:]]})
             outs["r"] = "r/ta/x"
+        if taps:
+            outs["w"] = "p/tp/w"
         conns = [Connectivity(source="p/sa/x", target=("q", "r")[cn["tgt"]] + "/ta/r_in",
                               weights=np.array([[float(Fr(w)) for w in row] for row in cn["W"]]), delays=float(Fr(cn["d"])))
                  for cn in case["conns"]]
@@ -95,7 +115,7 @@ def impl_conn(case):
                       float_precision="float64", backend="default", clear=True, verbose=False)
         except (IndexError, ValueError, KeyError, TypeError, AttributeError, NameError) as e:
             return {"raised": type(e).__name__, "msg": str(e)[:160]}
-        cols = [np.asarray(r[k].values).reshape(case["steps"], n) for k, n in (("p", ns), ("q", nq), ("r", nr)) if n]
+        cols = [np.asarray(r[k].values).reshape(case["steps"], n) for k, n in (("p", ns), ("q", nq), ("r", nr), ("w", ns if taps else 0)) if n]
         return [[frac(v) for blk in cols for v in blk[j]] for j in range(case["steps"])]
     finally:
         reset_pyrates()
@@ -123,8 +143,11 @@ def gen_conn(rng):
         conns.append(dict(tgt=tgt, W=W, d=str(d)))
         edges += [[s, off + t, W[t][s], str(d)] for t in range(nt) for s in range(ns)]
     maxd = max(rhe(Fr(cn["d"]) / dt) for cn in conns)
-    return dict(dt=str(dt), steps=maxd + rng.randint(3, 6), vectorize=True, solver="euler", nodes=nodes, edges=edges, conns=conns,
+    case = dict(dt=str(dt), steps=maxd + rng.randint(3, 6), vectorize=True, solver="euler", nodes=nodes, edges=edges, conns=conns,
                 pops=[ns, nq, nr])
+    if rng.random() < 0.4:
+        case["taps"] = [[j, str(Fr(rng.randint(-4, 4), 4))] for j in range(ns)]
+    return case
 
 # ---------------------------------------------------------------------------------------------- generator
 def _delay(rng, dt, kmin=1):
@@ -168,7 +191,7 @@ def gen_case(rng, kind="valid"):
     dt = Fr(1, rng.choice([4, 8, 16]))
     vec = rng.random() < 0.5 or fan
     key = (lambda i: nodes[i]["cls"]) if vec else (lambda i: i)
-    p_undelayed = {"valid": 0.3, "sibling": 0.4, "parallel": 0.3, "heun": 0.2, "none": 0.4, "short": 0.2}[kind]
+    p_undelayed = {"valid": 0.3, "sibling": 0.4, "parallel": 0.3, "heun": 0.2, "none": 0.4, "short": 0.2, "tap": 0.3, "mixnone": 0.6}[kind]
     uform = "none" if kind == "none" else "nokey"
     edges = []
     for j in range(len(T) + rng.randint(0, 3) if fan else rng.randint(1, 7)):
@@ -209,7 +232,79 @@ def gen_case(rng, kind="valid"):
     if kind == "none":
         maxd = max(maxd, int(1 / dt))
     steps = maxd + rng.randint(3, 7)
-    return dict(dt=str(dt), steps=steps, vectorize=vec, solver="heun" if kind == "heun" else "euler", nodes=nodes, edges=edges)
+    if kind == "mixnone":
+        # `delay: None` written out on some undelayed edges and no delay entry on others (vectorized: they share an edge group, D103)
+        vec = True
+        for e in edges:
+            if e[3] == "nokey" and rng.random() < 0.5:
+                e[3] = "none"
+    case = dict(dt=str(dt), steps=steps, vectorize=vec, solver="heun" if kind == "heun" else "euler", nodes=nodes, edges=edges)
+    if kind in ("valid", "sibling", "tap"):
+        # taps: every source node of some structural classes carries a second operator w' = x (a node with another operator list is
+        # another class, so a class is tapped as a whole); integer-valued delays written as Python ints
+        tcls = [c_ for c_ in sorted({nodes[i]["cls"] for i in S}) if rng.random() < (1.0 if kind == "tap" else 0.3)]
+        if tcls:
+            case["taps"] = [[i, str(Fr(rng.randint(-4, 4), 4))] for i in S if nodes[i]["cls"] in tcls]
+        if rng.random() < 0.3 and dt >= Fr(1, 8):
+            case["int_delays"] = True
+            for e in case["edges"]:
+                if e[3] not in ("nokey", "none") and rng.random() < 0.5:
+                    e[3] = str(rng.randint(1, 2))
+            case["steps"] = max(case["steps"], max([rhe(Fr(e[3]) / dt) for e in case["edges"] if e[3] not in ("nokey", "none")] + [0]) + 3)
+    return case
+
+def gen_relay(rng):
+    """three layers: state sources -> algebraic relays (x = g * r_in) -> integrator targets, node declaration order permuted (relays
+    may be declared before the sources that drive them), relays fed over delayed and undelayed edges, mixed delayed / undelayed
+    fan-out from relays and from sources, vectorize mostly on.  The meaning is the specification's on the FLATTENED circuit: a path
+    source -(w1, s1 steps)-> relay -(w2, s2 steps)-> target is an edge source -> target of weight w1*g*w2 and s1+s2 steps."""
+    while True:
+        dt = Fr(1, rng.choice([4, 8, 16]))
+        ns, nr, nt = rng.randint(1, 2), rng.randint(1, 2), rng.randint(2, 3)
+        nodes = [dict(kind="s", cls=0, x0=str(Fr(rng.randint(1, 8), 4)), k=str(Fr(rng.randint(1, 6), 2))) for _ in range(ns)]
+        nodes += [dict(kind="r", cls=0, x0="0", k="0", g=str(Fr(rng.choice([1, 2, 3, 4, 6]), 2))) for _ in range(nr)]
+        nodes += [dict(kind="t", cls=0, x0=str(Fr(rng.randint(-8, 8), 4)), k="0") for _ in range(nt)]
+        rng.shuffle(nodes)
+        S = [i for i, n in enumerate(nodes) if n["kind"] == "s"]; R = [i for i, n in enumerate(nodes) if n["kind"] == "r"]
+        T = [i for i, n in enumerate(nodes) if n["kind"] == "t"]
+        wq = lambda: str(Fr(rng.choice([-4, -3, -2, -1, 1, 2, 3, 4]), 2))
+        dl = lambda p: "nokey" if rng.random() < p else str(rng.randint(2, 5) * dt)
+        edges = []
+        for r in R:                                   # every relay is driven by one source (delayed mostly) ...
+            edges.append([rng.choice(S), r, wq(), dl(0.2)])
+            outs = rng.sample(T, rng.randint(2, len(T)))   # ... and fans out with a mixture of delayed and undelayed edges
+            forms = ["nokey", str(rng.randint(2, 5) * dt)] + [dl(0.4) for _ in outs[2:]]
+            rng.shuffle(forms)
+            edges += [[r, t, wq(), f] for t, f in zip(outs, forms)]
+        for _ in range(rng.randint(0, 2)):
+            edges.append([rng.choice(S), rng.choice(T), wq(), dl(0.3)])
+        vec = rng.random() < 0.8
+        if not vec:                                   # non-vectorized: parallel edges on one pair are another stream's business
+            seen, out = set(), []
+            for e in edges:
+                if (e[0], e[1]) not in seen:
+                    seen.add((e[0], e[1])); out.append(e)
+            edges = out
+        rng.shuffle(edges)
+        st = lambda f: 0 if f == "nokey" else rhe(Fr(f) / dt)
+        maxd = max([st(a[3]) + st(b[3]) for a in edges for b in edges if a[1] == b[0]] + [st(e[3]) for e in edges])
+        return dict(dt=str(dt), steps=maxd + rng.randint(3, 6), vectorize=vec, solver="euler", nodes=nodes, edges=edges, relay=True)
+
+def flatten(case):
+    """the two-layer circuit (sources, targets) that a relay circuit means; node j of the flattened circuit is the j-th non-relay node"""
+    dt = Fr(case["dt"]); nodes = case["nodes"]
+    keep = [i for i, n in enumerate(nodes) if n["kind"] != "r"]; new = {i: j for j, i in enumerate(keep)}
+    st = lambda f: 0 if f == "nokey" else rhe(Fr(f) / dt)
+    form = lambda k: "nokey" if k == 0 else str(k * dt)
+    edges = []
+    for s_, t_, w, f in case["edges"]:
+        if nodes[s_]["kind"] == "s" and nodes[t_]["kind"] == "t":
+            edges.append([new[s_], new[t_], w, form(st(f))])
+        elif nodes[s_]["kind"] == "s":               # source -> relay -> every target of the relay
+            for r_, t2, w2, f2 in case["edges"]:
+                if r_ == t_:
+                    edges.append([new[s_], new[t2], str(Fr(w) * Fr(nodes[t_]["g"]) * Fr(w2)), form(st(f) + st(f2))])
+    return dict(case, nodes=[nodes[i] for i in keep], edges=edges, relay=False)
 
 def gen_decimal(rng):
     """step sizes like 0.1 whose delay/dt quotients are not exact float integers (0.3/0.1 = 2.9999999999999996): values are not
@@ -259,7 +354,7 @@ def nontrivial(case):
     return any(e[3] not in ("nokey", "none") and rhe(Fr(e[3]) / dt) >= 2 for e in case["edges"])
 
 # ---------------------------------------------------------------------------------------------- model side
-GUARDS = ["g_euler", "g_no_undelayed_sibling", "g_no_parallel_buffered", "g_delays_ge2"]
+GUARDS = ["g_euler", "g_no_undelayed_sibling", "g_no_parallel_buffered", "g_delays_ge2", "g_uniform_keys", "g_no_tap_on_buffered"]
 HEADER = """From Coq Require Import List ZArith QArith Qcanon Bool Arith.
 From PV Require Import Ring Corr.
 Import ListNotations.
@@ -279,11 +374,23 @@ Definition fcI (p : circuit * nat * list nat) := let '(c, n, r) := p in
 Definition fcS (p : circuit * nat * list nat) := let '(c, n, r) := p in list_nat_eqb (first_change (spec_run c n)) r.
 """
 
+def expand(case):
+    """a tap on source node s = an extra integrator node (appended after the real nodes) + an edge without delay of weight 1 from s
+    to it (appended after the real edges); -> (nodes, edges, positions of the tap edges)"""
+    nodes = list(case["nodes"]); edges = list(case["edges"]); pos = []
+    for s_, w0 in case.get("taps", []):
+        nodes.append(dict(kind="t", cls=0, k="0", x0=w0))
+        pos.append(len(edges)); edges.append([s_, len(nodes) - 1, "1", "nokey"])
+    return nodes, edges, pos
+
 def coq_circuit(case):
-    nodes = clist([f"mkNode {cbool(n['kind'] == 's')} {cnat(n['cls'])} {cq(n.get('k', '0'))} {cq(n['x0'])}" for n in case["nodes"]])
+    if case.get("relay"):
+        case = flatten(case)
+    cnodes, cedges, _ = expand(case)
+    nodes = clist([f"mkNode {cbool(n['kind'] == 's')} {cnat(n['cls'])} {cq(n.get('k', '0'))} {cq(n['x0'])}" for n in cnodes])
     def dsp(ds):
         return "NoKey" if ds == "nokey" else "ExplNone" if ds == "none" else f"(Delay {cq(ds)})"
-    edges = clist([f"mkEdge {cnat(s)} {cnat(t)} {cq(w)} {dsp(ds)}" for s, t, w, ds in case["edges"]])
+    edges = clist([f"mkEdge {cnat(s)} {cnat(t)} {cq(w)} {dsp(ds)}" for s, t, w, ds in cedges])
     return f"(mkC {cq(case['dt'])} {cbool(case['vectorize'])} {cbool(case['solver'] == 'heun')} {nodes} {edges})"
 
 def coq_case(case, out):
@@ -300,14 +407,16 @@ def model_compare(ctx, cases, outs, tag):
     shard = 40
     for s in range(0, len(cases), shard):
         terms = [coq_case(c, o) for c, o in zip(cases[s:s + shard], outs[s:s + shard])]
-        body = ("Definition cases := " + clist(terms) + ".\n"
+        taps = clist([clist([cnat(i) for i in expand(c)[2]]) for c in cases[s:s + shard]])
+        body = ("Definition cases := " + clist(terms) + ".\nDefinition taps : list (list nat) := " + taps + ".\n"
                 "Eval vm_compute in (mismatches okI cases).\nEval vm_compute in (mismatches okS cases).\n"
                 "Eval vm_compute in (mismatches (gd wf) cases).\n" +
-                "".join(f"Eval vm_compute in (mismatches (gd {g}) cases).\n" for g in GUARDS))
+                "".join(f"Eval vm_compute in (mismatches (gd {g}) cases).\n" for g in GUARDS if g != "g_no_tap_on_buffered") +
+                "Eval vm_compute in (mismatches (fun p => gd (g_no_tap_on_buffered (snd p)) (fst p)) (combine cases taps)).\n")
         ls = parse_nat_lists(coq_eval(ctx, f"c09_{tag}_{s}", HEADER, body))
         assert len(ls) == 3 + len(GUARDS), ls
         badI += [s + i for i in ls[0]]; badS += [s + i for i in ls[1]]; nwf += [s + i for i in ls[2]]
-        for g, l in zip(GUARDS, ls[3:]):
+        for g, l in zip([g for g in GUARDS if g != "g_no_tap_on_buffered"] + ["g_no_tap_on_buffered"], ls[3:]):
             gfalse[g] += [s + i for i in l]
     return badI, badS, nwf, gfalse
 
@@ -353,8 +462,9 @@ def check(ctx):
     else:
         cases = [c["case"] if "case" in c else c for c in load_corpus("C09")]
         cases += [gen_case(ctx.rng, "valid") for _ in range(n_valid)]
-        for kind in ("sibling", "parallel", "heun", "none", "short"):
+        for kind in ("sibling", "parallel", "heun", "none", "short", "tap", "mixnone"):
             cases += [gen_case(ctx.rng, kind) for _ in range(n_viol)]
+        cases += [gen_relay(ctx.rng) for _ in range(n_valid // 5)]
         cases += [gen_conn(ctx.rng) for _ in range(n_valid // 5)]
     dec_cases = [] if ctx.replay else [gen_decimal(ctx.rng) for _ in range(n_valid // 5)]
     if ctx.replay and cases and cases[0].get("observe") == "first_change":
@@ -411,7 +521,7 @@ def check(ctx):
     nt = {canon(c) for i, c in enumerate(cases) if nontrivial(c) and i in in_guard}
     dt_of = lambda c: Fr(c["dt"])
     frac_q = lambda c: sorted({str((Fr(e[3]) / dt_of(c)) % 1) for e in c["edges"] if e[3] not in ("nokey", "none")})
-    hist = dict(connectivity_stream=len(ci), decimal_step_stream=len(dec_cases), decimal_inexact_quotient=sum(1 for c in dec_cases if c["inexact_quotient"]),
+    hist = dict(relay_circuits=sum(1 for c in cases if c.get("relay")), with_taps=sum(1 for c in cases if c.get("taps")), int_delays=sum(1 for c in cases if c.get("int_delays")), connectivity_stream=len(ci), decimal_step_stream=len(dec_cases), decimal_inexact_quotient=sum(1 for c in dec_cases if c["inexact_quotient"]),
                 vectorized=sum(1 for c in cases if c["vectorize"]), heun=sum(1 for c in cases if c["solver"] == "heun"),
                 in_guard=len(in_guard), guard_violating={g: len(gfalse[g]) for g in GUARDS},
                 raised=sum(1 for o in outs if isinstance(o, dict) and "raised" in o),
